@@ -1226,6 +1226,118 @@ def m_forall(ip, args, kwargs):
     return SBool(z3.ForAll([j], z3.Implies(z3.And(int_term(lo) <= j, j < int_term(hi)), body)))
 
 
+def _split_const(t):
+    """t == base + c with c the integer constant summand (0 if none)"""
+    t = z3.simplify(t)
+    if z3.is_int_value(t):
+        return None, t.as_long()
+    if z3.is_app(t) and t.decl().kind() == z3.Z3_OP_ADD:
+        c, rest = 0, []
+        for a in t.children():
+            if z3.is_int_value(a):
+                c += a.as_long()
+            else:
+                rest.append(a)
+        base = rest[0] if len(rest) == 1 else z3.Sum(rest)
+        return base, c
+    return t, 0
+
+
+def _ident(v, depth=0):
+    """fingerprint of a value captured by a fold step: equal fingerprints <=> the same value on this path"""
+    import ast as _ast
+    from .interp import InterpFunction
+    if depth > 4:
+        return ('deep',)
+    if v is None or isinstance(v, (bool, int, str, bytes)):
+        return ('c', repr(v))
+    if isinstance(v, (SInt, SBool)):
+        return ('t', z3.simplify(v.t).sexpr())
+    if isinstance(v, InterpFunction):
+        node = v.node
+        names = sorted({n.id for n in _ast.walk(node) if isinstance(n, _ast.Name) and isinstance(n.ctx, _ast.Load)})
+        cap = []
+        f = v.frame
+        for nm in names:
+            fr = f
+            while fr is not None:
+                if nm in fr.locals:
+                    cap.append((nm, _ident(fr.locals[nm], depth + 1)))
+                    break
+                fr = fr.parent
+        return ('ipfn', getattr(node, 'lineno', 0), getattr(node, 'col_offset', 0), getattr(node, 'end_lineno', 0), tuple(cap))
+    if callable(v) and hasattr(v, '__code__'):
+        cells = tuple(_ident(c.cell_contents, depth + 1) for c in (v.__closure__ or ()))
+        return ('pyfn', v.__code__.co_filename, v.__code__.co_firstlineno, cells)
+    return ('obj', id(v))
+
+
+def m_fold(ip, args, kwargs):
+    """api.fold(step, init, lst, upto).  Concrete list: the plain loop.  Symbolic-length list `rid`:
+         fold(0) = init;  fold(t + c) = step(fold(t + c - 1), lst[t + c - 1], t + c - 1)  for a constant c >= 1 (unfolded c times);
+         fold(t) for an atom t = the value of the uninterpreted function  Fold<step,rid>(t)  (with its own length function).
+    The unfolding is the *definition* of the fold, so using it needs no proof; that Fold<..>(t) is what the loop computed is exactly what
+    the loop invariant states and the inv.init / inv.preserve obligations prove."""
+    ctx = ip.ctx
+    step, init, lst, upto = args[:4]
+    if isinstance(lst, (list, tuple)):
+        n = upto if isinstance(upto, int) else ctx.concretize(int_term(upto), limit=len(lst) + 2, what='fold bound')
+        acc = init
+        for j in range(n):
+            acc = ip.call(step, [acc, lst[j], j])
+        return acc
+    if not isinstance(lst, SList) or lst.tail or lst.taken:
+        raise Unsupported('fold over %r' % (lst,))
+    base, c = _split_const(int_term(upto))
+    if base is None:
+        if c > 8:
+            raise Unsupported('fold of a symbolic list up to the constant %d' % c)
+        tcur = z3.IntVal(0)
+    else:
+        if c < 0 or c > 8:
+            raise Unsupported('fold bound %s' % upto)
+        tcur = base
+    if base is None:
+        acc = init
+    else:
+        tag = kwargs.get('key') if kwargs.get('key') is not None else (args[4] if len(args) > 4 else None)
+        if tag is None:
+            raise Unsupported('fold over a symbolic-length list needs key=...')
+        key = 'Fold<%s,%s>' % (tag, lst.rid)
+        # one key = one function: every use of the key on this path must pass the very same step (same source, same captured values)
+        fp = _ident(step)
+        seen = ctx.ghost.setdefault('fold_steps', {})
+        if key in seen and seen[key] != fp:
+            raise Unsupported('fold key %r is used with two different step functions' % (tag,))
+        seen[key] = fp
+        if not seq_like_value(init):
+            raise Unsupported('fold with a non-bytes accumulator')
+        f = z3.Function(key, z3.IntSort(), IntSeq)
+        fl = z3.Function(key + '.len', z3.IntSort(), z3.IntSort())
+        t, n = f(base), fl(base)
+        ctx.fact(n >= 0)
+        ctx.couple(t, n)
+        ctx.ufs.add('Fold')
+        acc = SBytes(seq=SeqPart(t, n))
+        # fold(0) = init, as a fact about the function (needed when the loop is skipped / at inv.init with a symbolic zero)
+        z0 = SBytes(seq=SeqPart(f(z3.IntVal(0)), fl(z3.IntVal(0))))
+        ctx.fact(ops.seq_eq_term(z0, init) if not isinstance(ops.seq_eq_term(z0, init), bool) else z3.BoolVal(True))
+    n0 = z3.Int('len_' + lst.rid)
+    ctx.no_fork += 1
+    try:
+        for d in range(c):
+            pos = z3.simplify(tcur + d)
+            elem = lst.elem.from_prefix(ctx, lst.rid, z3.simplify(n0 - pos))
+            acc = ip.call(step, [acc, elem, wrap_int(pos)])
+    finally:
+        ctx.no_fork -= 1
+    return acc
+
+
+def seq_like_value(v):
+    return isinstance(v, (bytes, bytearray, SBytes))
+
+
 def sarray_getitem(ip, arr, idx):
     return wrap_int(z3.Select(arr.t, int_term(idx)))
 
@@ -1257,6 +1369,7 @@ def install_default_models(reg):
     M[hex] = m_hex
     from . import api as _api
     M[_api.forall] = m_forall
+    M[_api.fold] = m_fold
 
     def m_store(ip, args, kwargs):
         from .loops import SArray
